@@ -116,6 +116,25 @@ VIEWS = {
     "get_parameters": lambda g, n: circ(g, n).get_parameters("list", True),
     "trainable_gates": lambda g, n: (len(circ(g, n).trainable_gates), circ(g, n).get_parameters("list", False)),
 }
+
+def _update_effect(g, n):
+    """what the three update formats do to a circuit holding only this gate: a frozen
+    (non-trainable) gate must be refused and keep its values"""
+    c = circ(g, n)
+    new = [tuple(0.5 * np.asarray(v) if isinstance(v, np.ndarray) else 0.5 * v for v in p) for p in c.get_parameters("list", True)]
+    out = []
+    for fmt, arg in (("list", lambda: new), ("dict", lambda: {g: new[0]}), ("flat", lambda: [x for p in new for x in p])):
+        try:
+            c.set_parameters(arg()); out.append((fmt, "ok"))
+        except Exception as e:
+            out.append((fmt, type(e).__name__))
+    return out, c.get_parameters("list", True)
+
+VIEWS["update_effect"] = _update_effect
+# producers that must hand the `trainable` flag on unchanged (SPECIFICATION); gate-level `dagger`
+# and `from_dict(raw)` return constructor defaults by design of qibo and are not listed
+KEEP_FLAG = ("on_qubits", "circuit_on_qubits", "circuit_invert", "controlled_by1", "controlled_by2", "controlled_by3", "circuit_copy_deep")
+RESETS_FLAG = ("dagger", "from_dict")
 CHEAP_VIEWS = ("parameters", "matrix", "decompose", "raw", "trainable_gates")
 
 # methods returning ONE gate: name -> function(gate, n)
@@ -127,6 +146,7 @@ PRODUCERS = {
     "circuit_invert": lambda g, n: circ(g, n).invert().queue[0],
     "controlled_by1": lambda g, n: g.controlled_by(*free(g, n, 1)),
     "controlled_by2": lambda g, n: g.controlled_by(*free(g, n, 2)),
+    "controlled_by3": lambda g, n: g.controlled_by(*free(g, n, 3)),
     "circuit_copy_deep": lambda g, n: circ(g, n).copy(deep=True).queue[0],
 }
 '''
@@ -245,7 +265,7 @@ class Recipe:
     def __init__(self, key, cls):
         self.key, self.cls = key, cls
         self.nq = cls.nq
-        self.n = cls.nq + 2
+        self.n = cls.nq + 3
         self.qs = list(range(cls.nq))
 
     def nslots(self):
@@ -484,11 +504,18 @@ class Tracer:
             ofields = all_fields[okey]
             base_vals = {of.key(): get(rg, of.path) for of in ofields}
             deps = {of.key(): [] for of in ofields}
+            pvals = {}
             for f in fields:
                 r1 = N["call"](lambda: fn(poked(f), n))
                 for of in ofields:
                     if r1[0] != "ok" or not same(get(r1[1], of.path), base_vals[of.key()]):
                         deps[of.key()].append(f)
+                        pvals[(of.key(), f.key())] = get(r1[1], of.path) if r1[0] == "ok" else MISSING
+            srcA = rec.make(A, True)
+            # identity fields: one source location, whose value (original and poked) is passed through
+            idents = [of for of in ofields if len(deps[of.key()]) == 1
+                      and same(base_vals[of.key()], get(srcA, deps[of.key()][0].path))
+                      and same(pvals[(of.key(), deps[of.key()][0].key())], get(alt, deps[of.key()][0].path))]
             if name == "circuit_copy_deep":
                 src = rec.make(A, True)
                 row.copied = [f for f in fields if okey == rec.key and same(get(rg, f.path), get(src, f.path))
@@ -508,7 +535,8 @@ class Tracer:
                     lst.append(v)
                     tag = len(lst) - 1
                 outs.append((of, deps[of.key()], tag))
-            row.producers.append((name, okey, outs))
+            keeps = [(rec.nslots(), self.recs[okey].nslots())] if name in N["KEEP_FLAG"] else []
+            row.producers.append((name, okey, outs, idents, keeps))
 
         # containers shared between a deep copy and its source
         row.shared = []
@@ -545,7 +573,7 @@ def compute_live(rows):
     while changed:
         changed = False
         for r in rows:
-            for _, okey, outs in r.producers:
+            for _, okey, outs, _i, _k in r.producers:
                 for of, deps, _ in outs:
                     if of.key() in live[okey]:
                         for d in deps:
@@ -590,8 +618,9 @@ def emit_table(rows, attr_ids):
         setters = _ls("⟨" + _str(", ".join(names[:2]) + (f" (+{len(names) - 2} routes/encodings)" if len(names) > 2 else ""))
                       + f", {slots}, {_fl(writes)}⟩" for names, slots, writes, _ in r.setters)
         views = _ls(f"⟨{_str(name)}, {_fl(reads)}⟩" for name, reads, _ in r.views)
-        prods = _ls("⟨" + _str(name) + f", {index[okey]}, " + _ls(f"⟨{of.lean()}, {_fl(deps)}, {tag}⟩" for of, deps, tag in outs) + "⟩"
-                    for name, okey, outs in r.producers)
+        prods = _ls("⟨" + _str(name) + f", {index[okey]}, " + _ls(f"⟨{of.lean()}, {_fl(deps)}, {tag}⟩" for of, deps, tag in outs)
+                    + f", {_fl(idents)}, " + _ls(f"({i}, {j})" for i, j in keeps) + "⟩"
+                    for name, okey, outs, idents, keeps in r.producers)
         out.append(f"/-- {r.key}: " + "; ".join(f"{f.lean()} = {f.name}" for f in r.fields) + " -/")
         out.append(f"def row_{lean_name(r.key)} : Cls :=\n  {{ name := {_str(r.key)}\n    fields := {_fl(r.fields)}\n    live := {_fl(r.live)}\n"
                    f"    setters := {setters}\n    views := {views}\n    producers := {prods}\n    copied := {_fl(r.copied)}\n    shared := {_fl(r.shared)} }}\n")
@@ -745,7 +774,7 @@ def node_mismatches(mk, recs, n, second_level=True):
 
     N = ns()
     try:
-        x = mk()
+        x, exp = mk()
     except Exception:  # noqa: BLE001 — the history itself raises: not a node
         return None
     if not isinstance(x, ParametrizedGate):
@@ -753,13 +782,16 @@ def node_mismatches(mk, recs, n, second_level=True):
     info = rebuild_info(x, recs)
     if info is None:
         return None
+    # the flag the reached gate MUST have: the constructor's, handed on by every producer except
+    # gate-level dagger / from_dict (which return the constructor default)
+    info = (info[0], info[1], exp, info[3], info[4])
     try:
         rebuild(info)
     except Exception:  # noqa: BLE001 — e.g. values the constructor refuses
         return None
     bad = []
     for v, fn in N["VIEWS"].items():
-        a = N["call"](lambda: N["obs"](fn(mk(), n)))
+        a = N["call"](lambda: N["obs"](fn(mk()[0], n)))
         b = N["call"](lambda: N["obs"](fn(rebuild(info), n)))
         if not N["eq_obs"](a, b):
             bad.append((v, info))
@@ -767,7 +799,7 @@ def node_mismatches(mk, recs, n, second_level=True):
         for p, pf in N["PRODUCERS"].items():
             for v in N["CHEAP_VIEWS"]:
                 fn = N["VIEWS"][v]
-                a = N["call"](lambda: N["obs"](fn(pf(mk(), n), n)))
+                a = N["call"](lambda: N["obs"](fn(pf(mk()[0], n), n)))
                 b = N["call"](lambda: N["obs"](fn(pf(rebuild(info), n), n)))
                 if not N["eq_obs"](a, b):
                     bad.append((f"{p}>{v}", info))
@@ -776,7 +808,7 @@ def node_mismatches(mk, recs, n, second_level=True):
 
 def replay_code(rec, A, t, hist, label, info, n):
     code = PRELUDE + f"\ng = {rec.code(A, t)}\n" + "".join(s.code + "\n" for s in hist)
-    code += f"ref = {rebuild_code(info)}   # freshly constructed from g.parameters, g.trainable and g's qubits\n"
+    code += f"ref = {rebuild_code(info)}   # freshly constructed from g.parameters, g's qubits and the trainable flag the history must hand on\n"
     if ">" in label:
         p, v = label.split(">")
         code += f"a = call(lambda: obs(VIEWS[{v!r}](PRODUCERS[{p!r}](g, {n}), {n})))\nb = call(lambda: obs(VIEWS[{v!r}](PRODUCERS[{p!r}](ref, {n}), {n})))\n"
@@ -810,10 +842,12 @@ def search(ctx, recs, fresh_status):
                     continue  # Circuit.set_parameters does not address non-trainable gates
 
                 def mk(hist=hist):
-                    g = rec.make(A, t)
+                    g, exp = rec.make(A, t), t
                     for s in hist:
                         g = s.apply(g)
-                    return g
+                        if s.name in ns()["RESETS_FLAG"]:
+                            exp = bool(getattr(g, "trainable", exp))
+                    return g, exp
 
                 bad = node_mismatches(mk, recs, n, second_level=len(hist) <= 2)
                 if bad is None:
@@ -845,7 +879,7 @@ def search(ctx, recs, fresh_status):
         reported += 1
         broken = [f"C06_gate_fresh_{lean_name(c)}" for c in ent["classes"]] + ["C06_gate_table_fresh", "C06_gate_theorems_instantiated", "C06_search_gateobj"]
         ctx.fail(k, f"after the history [{', '.join(s.name for s in hist) or 'construct'}] on {rec.code(A, t)} the view '{label}' differs from the view of a gate "
-                    f"freshly constructed from the reached gate's parameters, trainable flag and qubits (classes: {', '.join(ent['classes'][:8])}{'…' if len(ent['classes']) > 8 else ''})",
+                    f"freshly constructed from the reached gate's parameters and qubits and the trainable flag the history must hand on (classes: {', '.join(ent['classes'][:8])}{'…' if len(ent['classes']) > 8 else ''})",
                  replay_code(rec, A, t, hist, label, info, n), broken=broken)
     ctx.ob("C06_search_gateobj", not patterns, "search", f"{len(patterns)} history/view patterns disagree with a freshly constructed gate" if patterns else "")
     return patterns
@@ -900,9 +934,9 @@ def run_suites(ctx):
     search(ctx, tr.recs, status)
     ctx.trusted.append("the gate-table tracer tools/props/C06_gateobj.py (storage locations by differential construction, reads by poking one location at a time, "
                        "results observed through documented attributes); QV.Model.GateObj abstracts a method's result as a function of the locations it reads")
-    ctx.notes.append("gate level: class table regenerated for every parametrised class (fields, 3-4 update routes x 5 encodings, 12 views, 7 producers, deep-copy sharing), "
+    ctx.notes.append("gate level: class table regenerated for every parametrised class (fields, 3-4 update routes x 5 encodings, 13 views, 8 producers incl. controlled_by with 1/2/3 controls with their identity fields and the specified kept slots (trainable flag), deep-copy sharing), "
                      "`Table.fresh table` decided by the kernel; direct search: histories of <=4 steps (update routes, producers, deep copy + update of copy/source) per class and trainable flag, "
-                     "12 views + 8 producers x 5 views of the reached gate vs a gate freshly constructed from its parameters/flag/qubits")
+                     "13 views (incl. the effect of list/dict/flat updates on a frozen gate) + 9 producers x 5 views of the reached gate vs a gate freshly constructed from its parameters and qubits and the trainable flag the history must hand on (producers of a non-trainable gate must yield a non-trainable gate; gate-level dagger/from_dict excepted)")
 
 
 if __name__ == "__main__":
@@ -913,7 +947,7 @@ if __name__ == "__main__":
             print("   setter", names[0], f"(+{len(names)-1})", "writes", [f.name for f in writes], "corrupt", [f.name for f in corrupt])
         for name, reads, st in row.views:
             print("   view", name, st, [f.name for f in reads])
-        for name, okey, outs in row.producers:
-            print("   prod", name, "->", okey, [(of.name, [d.name for d in deps], tag) for of, deps, tag in outs])
+        for name, okey, outs, idents, keeps in row.producers:
+            print("   prod", name, "->", okey, [(of.name, [d.name for d in deps], tag) for of, deps, tag in outs], "idents", [f.name for f in idents], "keeps", keeps)
         print("   copied", [f.name for f in row.copied], "shared", [f.name for f in row.shared])
     print(tr.problems)
